@@ -421,6 +421,27 @@ pub fn run_structures_with(rep: &Report, name: &str, trees: &[Value], strategies
     rep.scope_done(json!({"scope": name, "trees": trees.len(), "tree_x_strategy": items.len(), "evaluations": rep.evals() - before}));
 }
 
+/// Without a bound holder key `cnf` is an ordinary user claim, whatever it contains.
+pub fn cnf_user_trees() -> Vec<Value> {
+    let vals = vec![
+        json!({"jwk": 1}), json!({"jwk": "x"}), json!({"jwk": {}}), json!({"jwk": []}), json!({"jwk": null}),
+        json!({"jwk": {"kty": "EC", "crv": "secp256k1", "x": "AQ", "y": "Ag"}}),
+        json!({"jwk": {"kty": "OKP", "crv": "X25519", "x": "AQ"}}),
+        json!({"jwk": {"kty": "EC", "crv": "P-256", "x": "TCAER19Zvu3OHF4j4W4vfSVoHIP1ILilDls7vCeGemc", "y": "ZxjiWWbZMQGHVWKVQ4hbSIirsVfuecCE6t4jT9F2HZQ"}}),
+        json!({"jwk": {"kty": "RSA"}}), json!({"kid": "k"}), json!({"jkt": "thumb"}), json!({}), json!("x"), json!(5), json!([1]), Value::Null,
+    ];
+    let mut out = vec![];
+    for v in vals {
+        out.push(json!({"iss": gen::ISS, "exp": gen::EXP, "cnf": v.clone()}));
+        out.push(json!({"iss": gen::ISS, "cnf": v.clone(), "a": [1], "exp": gen::EXP}));
+        out.push(json!({"iss": gen::ISS, "exp": gen::EXP, "a": {"cnf": v}}));
+    }
+    out
+}
+pub fn cnf_strategies(_u: &Value) -> Vec<Strat> {
+    vec![Strat::NoSd, Strat::Top, Strat::All, Strat::Custom(vec!["$.cnf".into()]), Strat::Custom(vec!["$.cnf.jwk".into()]), Strat::Custom(vec!["$.a".into()])]
+}
+
 /// Single nested path of depth k; bit i of `pattern` says whether level i is an array (1) or object (0).
 pub fn chain(k: usize, pattern: u64) -> Value {
     let mut v = json!(7);
